@@ -14,7 +14,7 @@ from ..core.astutil import u, call_name, kwarg, names_in
 from ..core.loader import AnchorError, Undecided
 from ..core.report import Ctx
 from .c17 import producer as dense_producer
-from .c35 import View, _nodes, _const_int, _raises, _slice_kind, nd_numbering, kron_sides, _CMP, MO, AO
+from .c35 import View, _nodes, _const_int, _raises, _slice_kind, nd_numbering, kron_sides, param_values, _CMP, MO, AO
 
 GRID = "src/porepy/grids/grid.py"
 TAGS = "src/porepy/utils/tags.py"
@@ -55,7 +55,7 @@ META = {
     "technique": "abstract interpretation over index spaces/orderings (permutation algebra) and over (row space, column space, "
                  "signedness) of sparse expressions; cross-module convention agreement for the Kronecker numbering",
 }
-MIN_INSTANCES = {"R1": 5, "R2": 11, "R3": 8, "R4": 9, "R5": 4, "R6": 12}
+MIN_INSTANCES = {"R1": 5, "R2": 8, "R3": 6, "R4": 11, "R5": 5, "R6": 12}
 
 FIND_LIKE = {"sparse_array_to_row_col_data", "find"}
 
@@ -110,7 +110,10 @@ class PermInterp:
             if u(e) == "self.cell_faces":
                 return ("cf",)
             return None
-        if isinstance(e, ast.Call):
+        if isinstance(e, ast.Subscript) and isinstance(e.value, ast.Attribute) and e.value.attr == "shape" and _const_int(e.slice) == 0:
+            sp = self.space(self.ev(e.value.value))
+            return ("size", sp) if sp is not None else None
+        if isinstance(e, ast.Call) and call_name(e) not in ("abs", "absolute", "sign", "negative"):
             nm = call_name(e)
             if nm == "len" and e.args:
                 sp = self.space(self.ev(e.args[0]))
@@ -128,6 +131,15 @@ class PermInterp:
                         self.needs_guard.append((e, dom, cod))
                     return ("perm", cod, dom, True)
                 return None
+            if nm in ("empty_like", "zeros_like") and e.args:
+                v = self.ev(e.args[0])
+                return ("blank", self.space(v)) if v is not None and self.space(v) is not None else None
+            if nm in ("empty", "zeros") and e.args:
+                v = self.ev(e.args[0])
+                return ("blank", v[1]) if v and v[0] == "size" else None
+            if nm == "arange" and len(e.args) == 1:
+                v = self.ev(e.args[0])
+                return ("iota", v[1]) if v and v[0] == "size" else None
             if nm in FIND_LIKE and e.args:
                 v = self.ev(e.args[0])
                 if v and v[0] == "mat":
@@ -143,6 +155,22 @@ class PermInterp:
                 return self.ev(e.func.value)
             if nm in ("asarray", "array", "atleast_1d", "ravel") and e.args:
                 return self.ev(e.args[0])
+            return None
+        if isinstance(e, ast.UnaryOp) and isinstance(e.op, ast.USub):
+            v = self.ev(e.operand)
+            return ("arr", v[1], "negated " + str(v[2])) if v and v[0] == "arr" else None
+        if isinstance(e, ast.BinOp) and isinstance(e.op, (ast.Mult, ast.Add, ast.Sub, ast.Div, ast.FloorDiv)):
+            for a, b in ((e.left, e.right), (e.right, e.left)):
+                v = self.ev(a)
+                if v and v[0] == "arr" and isinstance(b, (ast.Constant, ast.UnaryOp)) and _const_int(b) is not None:
+                    if isinstance(e.op, ast.Mult) and _const_int(b) == 1:
+                        return v
+                    return ("arr", v[1], f"{v[2]} {type(e.op).__name__} {_const_int(b)}")
+            return None
+        if isinstance(e, ast.Call) and call_name(e) in ("abs", "absolute", "sign", "negative") and len(e.args) == 1:
+            v = self.ev(e.args[0])
+            if v and v[0] == "arr":
+                return ("arr", v[1], f"{call_name(e)}({v[2]})")
             return None
         if isinstance(e, ast.Subscript):
             v = self.ev(e.value)
@@ -197,6 +225,11 @@ class PermInterp:
         if not (a and b and a[0] == b[0] == "size"):
             return None
         rows = getattr(self, "entry_rows", {})
+        # entries > rows (or not entries <= rows) is the same test when every face has at least one cell
+        if a[1] in rows and b[1] not in rows:
+            differs = differs or (isinstance(op, ast.Gt) and not neg) or (isinstance(op, ast.LtE) and neg)
+        if b[1] in rows and a[1] not in rows:
+            differs = differs or (isinstance(op, ast.Lt) and not neg) or (isinstance(op, ast.GtE) and neg)
         for x, y in ((a, b), (b, a)):
             if x[1] in rows:
                 ok_rows = y[1] == rows[x[1]] or (isinstance(rows[x[1]], tuple) and rows[x[1]][0] == "sorted" and rows[x[1]][1] == y[1]) \
@@ -232,12 +265,25 @@ class PermInterp:
                     for x, vv in zip(t.elts, vals):
                         self.env[x.id] = vv  # type: ignore[attr-defined]
                     continue
+                if isinstance(t, ast.Subscript) and isinstance(t.value, ast.Name):
+                    # inverse permutation by scatter:  inv = empty_like(p); inv[p] = arange(n)
+                    tgt, idx = self.env.get(t.value.id), self.ev(t.slice)
+                    if tgt and tgt[0] == "blank" and idx and idx[0] == "perm" and idx[3] and v and v[0] == "iota" \
+                            and self._same_size(tgt[1], idx[2]) and self._same_size(v[1], idx[1]):
+                        self.env[t.value.id] = ("perm", idx[2], idx[1], True)
+                        continue
             if isinstance(s, ast.Return):
                 self.returns.append((s, self.ev(s.value) if s.value is not None else None))
                 continue
             if isinstance(s, (ast.Raise, ast.Pass)):
                 continue
             raise self.f.und("statement form not handled by the ordering interpreter", s)
+
+    @staticmethod
+    def _same_size(a, b) -> bool:
+        """two orderings of the same set have the same number of elements"""
+        base = lambda x: x[1] if isinstance(x, tuple) and x and x[0] == "sorted" else x
+        return base(a) == base(b)
 
 
 def rule_signs_and_cells(ctx: Ctx, mod, mo_mod) -> None:
@@ -348,6 +394,15 @@ class MatInterp:
         if isinstance(e, ast.Attribute) and e.attr == "T":
             v = self.ev(e.value)
             return ("mat", v[2], v[1], v[3], f"({v[4]})^T", "fresh") if v and v[0] == "mat" else None
+        if isinstance(e, ast.UnaryOp) and isinstance(e.op, ast.USub):
+            v = self.ev(e.operand)
+            return ("mat", v[1], v[2], v[3], f"-({v[4]})", "fresh") if v and v[0] == "mat" else None
+        if isinstance(e, ast.BinOp) and isinstance(e.op, ast.Mult) and (_const_int(e.left) is not None or _const_int(e.right) is not None):
+            m_, c_ = (e.right, _const_int(e.left)) if _const_int(e.left) is not None else (e.left, _const_int(e.right))
+            v = self.ev(m_)
+            if v and v[0] == "mat":
+                return v if c_ == 1 else ("mat", v[1], v[2], v[3], f"{c_}*({v[4]})", "fresh")
+            return None
         if isinstance(e, ast.Call):
             nm = call_name(e)
             recv = e.func.value if isinstance(e.func, ast.Attribute) else None
@@ -356,6 +411,9 @@ class MatInterp:
                 v = self.ev(recv)
                 if v and v[0] == "data" and nm in ("astype", "copy"):
                     return v
+                if v and v[0] == "data" and nm == "clip" and len(e.args) == 2 and _const_int(e.args[0]) == 0 \
+                        and _const_int(e.args[1]) is not None and _const_int(e.args[1]) >= 1:  # type: ignore[operator]
+                    return ("data", v[1], "positive-threshold")
                 if v and v[0] == "mat":
                     if nm == "transpose" and not e.args:
                         return ("mat", v[2], v[1], v[3], f"({v[4]})^T", "fresh")
@@ -365,8 +423,10 @@ class MatInterp:
                         return ("mat", v[1], v[2], v[3], v[4], "maybe" if v[5] != "fresh" else "fresh")
                     if nm == "astype" and e.args:
                         a = u(e.args[0]).strip("'\"")
-                        return ("mat", v[1], v[2], "unsigned" if a in ("bool", "np.bool_") else v[3],
-                                v[4] if a not in ("bool", "np.bool_") else f"nz({v[4]})", "fresh")
+                        if a in ("bool", "np.bool_"):
+                            self.thresholds.append((e, v, "nonzero"))
+                            return ("mat", v[1], v[2], "unsigned", f"nonzero({v[4]})", "fresh")
+                        return ("mat", v[1], v[2], v[3], v[4], "fresh")
                     if nm in ("dot", "__matmul__", "__mul__") and len(e.args) == 1:
                         return self.product(e, v, self.ev(e.args[0]))
                     if nm == "__abs__" and not e.args:
@@ -381,9 +441,12 @@ class MatInterp:
                 if v and v[0] == "data":
                     return ("data", v[1], "abs")
                 return None
-            if nm == "clip" and len(e.args) == 3:
+            if nm == "clip" and e.args:
                 v = self.ev(e.args[0])
-                if v and v[0] == "data" and _const_int(e.args[1]) == 0 and _const_int(e.args[2]) is not None and _const_int(e.args[2]) >= 1:  # type: ignore[operator]
+                lo_ = e.args[1] if len(e.args) > 1 else (kwarg(e, "a_min") or kwarg(e, "min"))
+                hi_ = e.args[2] if len(e.args) > 2 else (kwarg(e, "a_max") or kwarg(e, "max"))
+                if v and v[0] == "data" and lo_ is not None and hi_ is not None and _const_int(lo_) == 0 \
+                        and _const_int(hi_) is not None and _const_int(hi_) >= 1:  # type: ignore[operator]
                     return ("data", v[1], "positive-threshold")
                 return None
             if nm == "sign" and len(e.args) == 1:
@@ -410,6 +473,8 @@ class MatInterp:
                     return None
                 truth = [_CMP[op](x - c) for x in (-1, 0, 1, 2)]  # type: ignore[operator]
                 kind = "positive" if truth == [False, False, True, True] else ("nonzero" if truth == [True, False, True, True] else None)
+                if kind is None and (truth[1] or not truth[2] or not truth[3]):
+                    kind = "not-a-support-test"
                 if kind is None:
                     raise self.f.und("comparison of a matrix with a constant that is neither > 0 nor != 0", e)
                 self.thresholds.append((e, v, kind))
@@ -483,12 +548,17 @@ def rule_connection_maps(ctx: Ctx, mod) -> None:
                 ctx.check("R3", a[4] == f"({b[4]})^T", mod, q, node,
                           f"the connection map is symmetric by construction only if it is X^T X with one and the same X; found "
                           f"[{a[4]}] @ [{b[4]}]", construct="cell_connection_map: X^T X with the same X", facts={"left": a[4], "right": b[4]})
+        for n, v, k in it.thresholds:
+            if k == "not-a-support-test":
+                ctx.check("R3", False, mod, q, n,
+                          f"the boolean map is the support of the product (entry >= 1 <=> connected); `{u(n)[:80]}` is not true exactly for "
+                          f"the positive counts", construct=f"{q.split('.')[1]}: threshold is the support of the product")
         pos = [(n, v, k) for n, v, k in it.thresholds if k == "positive"]
-        non = [(n, v, k) for n, v, k in it.thresholds if k == "nonzero"]
+        non = [(n, v, k) for n, v, k in it.thresholds if k == "nonzero" and "@" in v[4]]  # of products; of a factor it only drops signs
         for n, v, k in non:
             if v[3] == "signed":
                 raise f.und("non-zero test of a product with signed factors: cancellation cannot be excluded statically", n)
-        if not it.thresholds:
+        if not [t for t in it.thresholds if "@" in t[1][4]]:
             raise f.und("no boolean conversion of the product found")
         for n, v, k in pos:
             ctx.check("R3", v[3] == "unsigned", mod, q, n,
@@ -511,34 +581,8 @@ def rule_connection_maps(ctx: Ctx, mod) -> None:
 #  R4  divergence / trace: orientation and Kronecker numbering
 # =====================================================================================
 
-def _dim_condition(f: View, node: ast.AST, param: str) -> list[tuple[str, int, bool]]:
-    """conjunction of (op name, constant, holds) tests on `param` established at node by enclosing if/elif arms"""
-    out = []
-    cur = node
-    while cur is not f.fn and cur in f.pm:
-        par = f.pm[cur]
-        if isinstance(par, ast.If):
-            t = par.test
-            if isinstance(t, ast.Compare) and len(t.ops) == 1 and u(t.left) == param and _const_int(t.comparators[0]) is not None \
-                    and type(t.ops[0]) in _CMP:
-                in_body = any(cur is x for x in par.body)
-                out.append((type(t.ops[0]), _const_int(t.comparators[0]), in_body))
-        # path condition from earlier terminal `if`s of the same block (early return / raise)
-        for fld in ("body", "orelse", "finalbody"):
-            blk = getattr(par, fld, None)
-            if isinstance(blk, list) and any(cur is x for x in blk):
-                for prev in blk[:[id(x) for x in blk].index(id(cur))]:
-                    if isinstance(prev, ast.If) and not prev.orelse and prev.body and isinstance(prev.body[-1], (ast.Return, ast.Raise)):
-                        t = prev.test
-                        if isinstance(t, ast.Compare) and len(t.ops) == 1 and u(t.left) == param \
-                                and _const_int(t.comparators[0]) is not None and type(t.ops[0]) in _CMP:
-                            out.append((type(t.ops[0]), _const_int(t.comparators[0]), False))
-        cur = par
-    return out
-
-
-def _dims_allowed(conds) -> list[int]:
-    return [d for d in (-1, 0, 1, 2, 3) if all(_CMP[op](d - c) == holds for op, c, holds in conds)]
+def _dims_at(f: View, node: ast.AST, param: str) -> list[int]:
+    return param_values(f, node, param)
 
 
 def _strip_conv(e: ast.expr) -> ast.expr:
@@ -568,13 +612,16 @@ def rule_divergence(ctx: Ctx, mod, amod) -> None:
     mi = MatInterp(f, None)
     seen = {"scalar": 0, "vector": 0}
     for r in [s for s in f.stmts if isinstance(s, ast.Return) and s.value is not None]:
-        dims = _dims_allowed(_dim_condition(f, r, "dim"))
+        dims = _dims_at(f, r, "dim")
         c = f.canon2(r.value, r)  # type: ignore[arg-type]
         if dims == [1]:
             seen["scalar"] += 1
             v = mi.ev(_strip_conv(c))
             if not (v and v[0] == "mat"):
                 raise f.und("cannot type the scalar divergence", r)
+            ctx.check("R4", v[4] in ("(self.cell_faces)^T", "self.cell_faces"), mod, q, r,
+                      f"the divergence is the SIGNED incidence (outflow positive), unscaled; the returned term is [{v[4]}]",
+                      construct="divergence: scalar arm uses the signed incidence itself", facts={"term": v[4]})
             ctx.check("R4", (v[1], v[2]) == ("C", "F"), mod, q, r,
                       f"the scalar divergence sums face fluxes per cell: cells x faces = cell_faces^T; the returned expression is "
                       f"{_sp(v[1])} x {_sp(v[2])} [{v[4]}]", construct="divergence: scalar arm is cells x faces", facts={"term": v[4]})
@@ -596,6 +643,9 @@ def rule_divergence(ctx: Ctx, mod, amod) -> None:
             v = mi.ev(m)
             if not (v and v[0] == "mat"):
                 raise f.und("cannot type the matrix factor of the Kronecker product", r)
+            ctx.check("R4", v[4] in ("(self.cell_faces)^T", "self.cell_faces"), mod, q, r,
+                      f"the vector divergence expands the SIGNED incidence itself (the scalar arm's matrix); the Kronecker factor is [{v[4]}]",
+                      construct="divergence: vector arm uses the signed incidence itself", facts={"term": v[4]})
             rows, cols = (v[2], v[1]) if flipped else (v[1], v[2])
             ctx.check("R4", (rows, cols) == ("C", "F"), mod, q, r,
                       f"the vector divergence is (cells*dim) x (faces*dim) like the scalar one; the returned expression is "
@@ -608,7 +658,7 @@ def rule_divergence(ctx: Ctx, mod, amod) -> None:
     raises = [s for s in f.stmts if isinstance(s, ast.Raise)]
     cover = set()
     for s in raises:
-        cover |= set(_dims_allowed(_dim_condition(f, s, "dim")))
+        cover |= set(_dims_at(f, s, "dim"))
     ctx.check("R4", {-1, 0} <= cover and not ({1, 2, 3} & cover), mod, q, raises[0] if raises else f.fn,
               f"dim <= 0 must raise and dim >= 1 must not; raising for dim in {sorted(cover)} of (-1, 0, 1, 2, 3)",
               construct="divergence: non-positive dim raises", facts={"raises_for": sorted(cover)})
@@ -755,13 +805,31 @@ def rule_boundary_face_tag(ctx: Ctx, mod) -> None:
                 resets.append((s, tag_key(t), f.canon2(s.value, s)))
             elif isinstance(t, ast.Subscript) and tag_key(t.value) is not None:
                 sets.append((s, tag_key(t.value), t.slice))
+            elif isinstance(t, ast.Subscript) and isinstance(t.value, ast.Name):
+                # in-place update through the very array object that was stored under the key
+                for rs_, k_, v_ in resets:
+                    if isinstance(rs_.value, ast.Name) and rs_.value.id == t.value.id and f.unique_def(t.value.id, s) is f.unique_def(t.value.id, rs_):
+                        sets.append((s, k_, t.slice))
     if not sets:
-        raise f.und("expected `self.tags[key][faces] = True`")
+        # the tag is assigned as a boolean mask:  self.tags[key] = <count> == 1  (possibly np.zeros(..) on the 0-d arm)
+        direct = [r for r in resets if any(n is cmp_ or u(n) == u(f.canon2(cmp_, f.stmt_of(cmp_))) for n in ast.walk(r[2]))
+                  or u(f.canon2(cmp_, f.stmt_of(cmp_))) in u(r[2])]
+        if not direct:
+            raise f.und("expected `self.tags[key][faces] = True` or `self.tags[key] = <mask>`")
+        s_d, k_d, v_d = direct[0]
+        ctx.check("R5", isinstance(v_d, ast.Compare), mod, q, s_d, f"the tag is the comparison itself; found {u(v_d)[:80]}",
+                  construct="boundary faces: set to True")
+        ctx.check("R5", k_d.endswith("_faces"), mod, q, s_d, f"a mask over faces is stored under a face tag; key '{k_d}'",
+                  construct="boundary faces: tag array re-created with num_faces entries", facts={"key": k_d})
+        ctx.check("R5", True, mod, q, s_d, "", construct="boundary faces: cleared before set", desc="the tag is replaced as a whole")
+        return
     s_set, k_set, idx = sets[0]
     derived = any(n is cmp_ or u(n) == u(cmp_) for n in ast.walk(f.canon2(idx, s_set))) or \
         u(f.canon2(cmp_, f.stmt_of(cmp_))) in u(f.canon2(idx, s_set))
     if not derived:
         raise f.und("faces set to True are not derived from the entry-count comparison", s_set)
+    ctx.check("R5", isinstance(s_set.value, ast.Constant) and s_set.value.value is True, mod, q, s_set,
+              f"the faces with one neighbouring cell are tagged True; found `{u(s_set)[:80]}`", construct="boundary faces: set to True")
     rs = [r for r in resets if r[1] == k_set]
     ok = bool(rs) and isinstance(rs[0][2], ast.Call) and call_name(rs[0][2]) in ("zeros", "full") and "num_faces" in u(rs[0][2]) \
         and k_set.endswith("_faces") and "bool" in u(rs[0][2])
@@ -808,6 +876,13 @@ def rule_tag_tables(ctx: Ctx, mod, tmod) -> None:
         raise AnchorError(f"{TAGS}:all_tags: signature changed")
     idxs = sorted({_const_int(n.slice) for n in ast.walk(at) if isinstance(n, ast.Subscript) and u(n.value) == lp and _const_int(n.slice) is not None})
     whole = any((isinstance(n, (ast.For, ast.comprehension)) and u(n.iter) == lp) for n in ast.walk(at))
+    for n in ast.walk(at):
+        if isinstance(n, (ast.For, ast.comprehension)) and isinstance(n.iter, ast.Subscript) and u(n.iter.value) == lp \
+                and isinstance(n.iter.slice, ast.Slice) and n.iter.slice.upper is None and n.iter.slice.step is None \
+                and _const_int(n.iter.slice.lower) is not None and _const_int(n.iter.slice.lower) >= 0:  # type: ignore[operator]
+            k0 = _const_int(n.iter.slice.lower)
+            if idxs == list(range(k0)):  # type: ignore[arg-type]
+                whole = True  # positions 0..k0-1 read explicitly, the rest by iteration over ft[k0:]
     if not idxs and not whole:
         raise Undecided(f"{TAGS}:all_tags: neither indexed reads of `{lp}` nor an iteration over it")
     ors = all(call_name(c) in ("logical_or", "reduce", "any") for c in ast.walk(at) if isinstance(c, ast.Call)) if not whole else True
@@ -833,9 +908,16 @@ def rule_tag_tables(ctx: Ctx, mod, tmod) -> None:
     fn = mod.func(q)
     dicts = [n for n in ast.walk(fn) if isinstance(n, ast.Dict) and n.keys and all(isinstance(k, ast.Constant) and isinstance(k.value, str) for k in n.keys)
              and all(isinstance(v, ast.Constant) and isinstance(v.value, str) for v in n.values)]
-    if len(dicts) != 1:
-        raise Undecided(f"{GRID}:{q}: expected one literal face-tag -> node-tag dictionary")
-    pairs = [(k.value, v.value) for k, v in zip(dicts[0].keys, dicts[0].values)]  # type: ignore[union-attr]
+    zips = [n for n in ast.walk(fn) if isinstance(n, ast.Call) and call_name(n) == "zip" and len(n.args) == 2
+            and all(isinstance(a, ast.Call) for a in n.args)
+            and [call_name(a) for a in n.args] == ["standard_face_tags", "standard_node_tags"]]  # type: ignore[arg-type]
+    if len(dicts) == 1:
+        pairs = [(k.value, v.value) for k, v in zip(dicts[0].keys, dicts[0].values)]  # type: ignore[union-attr]
+    elif not dicts and len(zips) == 1 and len(sf) == len(sn):
+        pairs = list(zip(sf, sn))
+        dicts = zips  # type: ignore[assignment]
+    else:
+        raise Undecided(f"{GRID}:{q}: expected one literal face-tag -> node-tag dictionary (or zip of the two standard lists)")
     ctx.check("R6", sorted(k for k, _ in pairs) == sorted(sf), mod, q, dicts[0],
               f"every standard face tag must be transferred to the nodes; mapped: {[k for k, _ in pairs]}, standard: {sf}",
               construct="node tag update covers all standard face tags", facts={"mapped": [k for k, _ in pairs]})
@@ -915,6 +997,11 @@ MUTANTS = [
     _m("trace-columns-from-signs", "_, bound_cells = self.signs_and_cells_of_boundary_faces(bound_faces)",
        "bound_cells, _ = self.signs_and_cells_of_boundary_faces(bound_faces)", "R4"),
     _m("expand-indices-component-major", "new_ind = nd * ind + dim_inds", "new_ind = ind + nd * dim_inds", "R4", file=AO),
+    _m("divergence-of-unsigned-incidence", "            scalar_div = self.cell_faces\n", "            scalar_div = abs(self.cell_faces)\n", "R4"),
+    _m("divergence-scalar-sign-flipped", "return self.cell_faces.T.tocsr()", "return (-self.cell_faces).T.tocsr()", "R4"),
+    _m("signs-negated-on-return", "        sgn, ci = sgn[IC], ci[IC]\n        return sgn, ci", "        sgn, ci = sgn[IC], ci[IC]\n        return -sgn, ci", "R2"),
+    _m("cell-nodes-needs-two-faces", "mat = (self.face_nodes @ np.abs(self.cell_faces)) > 0", "mat = (self.face_nodes @ np.abs(self.cell_faces)) > 1", "R3"),
+    _m("boundary-faces-set-false", '            self.tags["domain_boundary_faces"][bd_faces] = True', '            self.tags["domain_boundary_faces"][bd_faces] = False', "R5"),
     # ---- R5 boundary tag
     _m("boundary-count-per-cell", "np.diff(self.cell_faces.tocsr().indptr) == 1", "np.diff(self.cell_faces.tocsc().indptr) == 1", "R5", control=True),
     _m("boundary-at-least-one-cell", "np.diff(self.cell_faces.tocsr().indptr) == 1", "np.diff(self.cell_faces.tocsr().indptr) >= 1", "R5"),
